@@ -123,3 +123,82 @@ Example ex_nodup_tags_body :
               ARun (HTaskDone 2); ARun (HWake 1 4); AWrap 1 5; AGroupExit 1 1] in
   disciplined ops = true /\ map fst (g_excs (groups (final step init ops) 1)) = [2; 0].
 Proof. vm_compute. auto. Qed.
+
+(* ------------------------------------------------------------------------------------------------ *)
+(* C02 end to end (disciplined runs): what the exception group raised by __aexit__ is made of *)
+From Coq Require Import Permutation.
+From AV Require Import GroupThmsPure.
+
+Definition exn_of_done (d : option outcome) : exn :=
+  match d with Some (OExc e) => e | Some (OCanc e) => e | _ => ERuntime end.
+
+Definition ztag (x : nat * exn) : bool := Nat.eqb (fst x) 0.
+
+Lemma perm_partition {A} (p : A -> bool) (l : list A) :
+  Permutation l (filter p l ++ filter (fun x => negb (p x)) l).
+Proof. apply filter_partition_perm. Qed.
+
+Lemma filter_map_fst_nz (l : list (nat * exn)) :
+  filter nzb (map fst l) = map fst (filter (fun x => negb (ztag x)) l).
+Proof.
+  induction l as [|[t e] l IH]; [reflexivity|]. cbn [map filter fst]. unfold nzb at 1, ztag at 1. cbn [fst].
+  destruct (Nat.eqb t 0); cbn [negb]; [exact IH|]. cbn [map fst]. now rewrite IH.
+Qed.
+
+Lemma ztag_length (l : list (nat * exn)) :
+  length (filter ztag l) = length (filter (fun x => Nat.eqb x 0) (map fst l)).
+Proof.
+  induction l as [|[t e] l IH]; [reflexivity|]. cbn [filter map fst]. unfold ztag at 1. cbn [fst].
+  destruct (Nat.eqb t 0); cbn [length]; now rewrite IH.
+Qed.
+
+Lemma flat_map_map_comp {A B C} (f : B -> list C) (g : A -> B) l :
+  flat_map f (map g l) = flat_map (fun x => f (g x)) l.
+Proof. induction l as [|a l IH]; [reflexivity|]. cbn. now rewrite IH. Qed.
+
+(* the list handed to BaseExceptionGroup by aexit_finish is a permutation of: the body exception (at most one entry,
+   tag 0, never a cancellation) followed by the outcomes of the members `ms`; ms has no repetition, consists of
+   members of g whose task_done ran with a non-cancellation exception, and contains every such member of g_ever
+   unless its exception was routed to the start future (the caller of start()) *)
+Theorem group_result_composition s g : dreach s ->
+  let L := g_excs (groups s g) in
+  let body := map snd (filter ztag L) in
+  let ms := filter nzb (map fst L) in
+  Permutation (map snd L) (body ++ map (fun t => exn_of_done (k_done (tasks s t))) ms) /\
+  Permutation (flat_map leaves (map snd L))
+              (flat_map leaves body ++ flat_map (fun t => leaves (exn_of_done (k_done (tasks s t)))) ms) /\
+  length body <= 1 /\ (forall e, In e body -> is_cancel e = false) /\
+  NoDup ms /\
+  (forall t, In t ms -> k_group (tasks s t) = Some g /\ k_tdran (tasks s t) = true /\
+                        exists e, k_done (tasks s t) = Some (OExc e) /\ is_cancel e = false) /\
+  (forall t e, In t (g_ever (groups s g)) -> k_tdran (tasks s t) = true -> k_done (tasks s t) = Some (OExc e) ->
+     In t ms \/ exists f, k_startfut (tasks s t) = Some f /\ f_st (futs s f) = FExc e).
+Proof.
+  intros D. cbn zeta. pose proof (dreach_reach s D) as R.
+  destruct (group_excs_exactly_member_errors s g R) as [Hnd [Htags [Hzero Hconv]]].
+  set (L := g_excs (groups s g)) in *.
+  assert (Hnz : map snd (filter (fun x => negb (ztag x)) L) =
+                map (fun t => exn_of_done (k_done (tasks s t))) (filter nzb (map fst L))).
+  { rewrite filter_map_fst_nz, map_map. apply map_ext_in. intros [t e] Hin. apply filter_In in Hin.
+    destruct Hin as [Hin Hz]. cbn [fst snd]. unfold ztag in Hz. cbn [fst] in Hz.
+    assert (Ht : t <> 0) by (intros ->; discriminate).
+    destruct (Htags t e Hin Ht) as [_ [_ [Hd _]]]. now rewrite Hd. }
+  assert (P1 : Permutation (map snd L) (map snd (filter ztag L) ++
+                 map (fun t => exn_of_done (k_done (tasks s t))) (filter nzb (map fst L)))).
+  { rewrite <- Hnz, <- map_app. apply Permutation_map, perm_partition. }
+  refine (conj P1 (conj _ (conj _ (conj _ (conj Hnd (conj _ _)))))).
+  - rewrite <- (flat_map_map_comp leaves (fun t => exn_of_done (k_done (tasks s t)))), <- flat_map_app.
+    apply Permutation_flat_map, P1.
+  - pose proof (dreach_zinv s D g) as [Hz _]. unfold zc in Hz. fold L in Hz.
+    rewrite map_length, ztag_length. exact Hz.
+  - intros e Hin. apply in_map_iff in Hin. destruct Hin as [[t e'] [<- Hin]]. apply filter_In in Hin.
+    destruct Hin as [Hin Hz]. unfold ztag in Hz. cbn [fst] in Hz. apply Nat.eqb_eq in Hz. subst t. apply (Hzero e' Hin).
+  - intros t Hin. apply filter_In in Hin. destruct Hin as [Hin Hz]. apply in_map_iff in Hin.
+    destruct Hin as [[t' e] [Et Hin]]. cbn in Et. subst t'.
+    assert (Ht : t <> 0) by (intros ->; discriminate).
+    destruct (Htags t e Hin Ht) as [H1 [H2 [H3 H4]]]. eauto 6.
+  - intros t e H1 H2 H3. destruct (Hconv t e H1 H2 H3) as [_ [Hin|Hr]]; [left|right; exact Hr].
+    apply filter_In. split; [apply in_map_iff; exists (t, e); auto|].
+    unfold nzb. destruct (reach_inv s R) as [[_ _ Gi _] _]. destruct (g_grp s Gi g t H1) as [_ [H0 _]].
+    destruct (Nat.eqb_spec t 0); [lia|reflexivity].
+Qed.
